@@ -1,6 +1,6 @@
 //! Scripted (non-adaptive) workloads for the checks that enumerate boundaries and cells.
 
-use crate::checks::{connect_with, poll0};
+use crate::checks::{connect_with, poll0, pub1, pubq};
 use crate::genr::{rand_string, rand_topic};
 use crate::refcodec::Prop;
 use crate::rng::Rng;
@@ -229,13 +229,33 @@ pub fn c10_script(r: &mut Rng, _index: u64, _tier: Tier) -> (CaseCfg, Vec<Step>)
     if let Some(o) = over {
         props.push(Prop::ServerKeepAlive(o));
     }
-    let mut s = vec![Step::Connect(ConnectSpec {
+    let mut s = vec![];
+    // one case in four: an earlier connection whose CONNACK carried some other Server Keep Alive
+    if r.chance(1, 4) {
+        let prior = *r.pick(&[0u16, 1, 7, 600, 65535]);
+        s.push(Step::Connect(ConnectSpec {
+            policy: IoPolicy::default(),
+            faults: vec![],
+            connack: ConnackSpec::Normal { sp: SpMode::Force(false), reason: 0, props: vec![Prop::ServerKeepAlive(prior)] },
+            broker: BrokerPolicy { acks: AckMode::Immediate, ping: AckMode::Immediate, fail_pct: 0, longform_pct: 0 },
+            cancel_at: None,
+        }));
+        s.push(Step::Poll { max_wait: 1 + r.below(3_000_000) as u64, cancel_at: None });
+        s.push(match r.below(3) {
+            0 => Step::DropConn,
+            1 => Step::Disconnect(DiscSpec { reason: None, props: None, cancel_at: None }),
+            _ => Step::Broker(BrokerAct::Close),
+        });
+        s.push(Step::Poll { max_wait: 1, cancel_at: None });
+        s.push(Step::DropConn);
+    }
+    s.push(Step::Connect(ConnectSpec {
         policy: IoPolicy::default(),
         faults: vec![],
-        connack: ConnackSpec::Normal { sp: SpMode::Force(false), reason: 0, props },
+        connack: ConnackSpec::Normal { sp: SpMode::Force(r.chance(1, 2) && !s.is_empty()), reason: 0, props },
         broker: BrokerPolicy { acks: AckMode::Immediate, ping, fail_pct: 0, longform_pct: 0 },
         cancel_at: None,
-    })];
+    }));
     let base = if eff == 0 { 10_000_000 } else { eff.min(100_000_000) };
     for i in 0..r.range(4, 10) {
         let wait = match r.below(9) {
@@ -260,5 +280,73 @@ pub fn c10_script(r: &mut Rng, _index: u64, _tier: Tier) -> (CaseCfg, Vec<Step>)
     }
     s.push(Step::Poll { max_wait: 3 * base + 6_000_000, cancel_at: None });
     s.push(Step::Poll { max_wait: 1, cancel_at: None });
+    (cfg, s)
+}
+
+
+/// C14 workload: the client owes the broker a packet while the connection's Maximum Packet Size
+/// is tiny (2..8 bytes), on a fresh or on a resumed connection.
+pub fn c14_script(r: &mut Rng, _index: u64, _tier: Tier) -> (CaseCfg, Vec<Step>) {
+    use crate::refcodec::SPacket;
+    let cfg = CaseCfg { rx: 128, tx: 512, keepalive: 0, ..CaseCfg::default() };
+    let mps = 2 + r.below(7) as u32;
+    let tiny = vec![Prop::MaximumPacketSize(mps)];
+    let pid = *r.pick(&[1u16, 7, 255, 256, 65535]);
+    let publish = |qos: u8, dup: bool| Step::Broker(BrokerAct::Send(SPacket::Publish { dup, qos, retain: false, topic: "m".into(), pid: Some(pid), props: vec![], payload: vec![9, 9] }));
+    let mut s = vec![];
+    match r.below(6) {
+        // first delivery of a QoS 1 / QoS 2 publish under the tiny limit
+        0 => {
+            s.push(connect_with(SpMode::Force(false), AckMode::Immediate, tiny));
+            s.push(publish(1, false));
+        }
+        1 => {
+            s.push(connect_with(SpMode::Force(false), AckMode::Immediate, tiny));
+            s.push(publish(2, false));
+        }
+        // an inbound QoS 2 exchange left open by the previous connection (delivered, PUBREC
+        // never written), redelivered on a resumed / fresh connection with the tiny limit
+        2 | 3 => {
+            s.push(connect_with(SpMode::Force(false), AckMode::Immediate, vec![]));
+            s.push(publish(2, false));
+            s.push(poll0());
+            if r.chance(1, 2) {
+                // PUBREC written as well: the broker's PUBREL was lost with the connection
+                s.push(Step::Broker(BrokerAct::Policy(BrokerPolicy { acks: AckMode::Never, ping: AckMode::Immediate, fail_pct: 0, longform_pct: 0 })));
+                s.push(poll0());
+            }
+            s.push(Step::DropConn);
+            s.push(connect_with(SpMode::Force(r.chance(3, 4)), AckMode::Immediate, tiny));
+            s.push(publish(2, true));
+        }
+        // PUBREL from the broker for an open inbound exchange: the PUBCOMP is owed
+        4 => {
+            s.push(connect_with(SpMode::Force(false), AckMode::Never, vec![]));
+            s.push(publish(2, false));
+            s.push(poll0());
+            s.push(poll0());
+            s.push(Step::DropConn);
+            s.push(connect_with(SpMode::Force(true), AckMode::Immediate, tiny));
+            s.push(Step::Broker(BrokerAct::Send(SPacket::PubRel { pid, reason: None, props: None })));
+        }
+        // outbound QoS 2 exchange whose PUBREC arrives under the tiny limit: the PUBREL is owed
+        _ => {
+            s.push(connect_with(SpMode::Force(false), AckMode::Hold, vec![]));
+            s.push(pubq(2, "o", 1, 0));
+            s.push(Step::DropConn);
+            s.push(Step::SetNextPid(2));
+            s.push(connect_with(SpMode::Force(true), AckMode::Immediate, vec![Prop::MaximumPacketSize(mps.max(14))]));
+            s.push(poll0());
+            s.push(poll0());
+            s.push(Step::DropConn);
+            s.push(connect_with(SpMode::Force(true), AckMode::Immediate, tiny));
+        }
+    }
+    for _ in 0..4 {
+        s.push(poll0());
+    }
+    // whatever happened, further calls must agree with the handle's state
+    s.push(pub1("after", 2, 0));
+    s.push(poll0());
     (cfg, s)
 }
